@@ -10,10 +10,11 @@ from vlib import sx, lib, env
 RULE = ("plans of 0-150 steps (1-, 2- and 3-digit step numbers) over names with letters, digits, '-' and '_', rendered in "
         "Metric-FF log layout (header / trailer blocks cut from the shipped log, shuffled and optionally omitted, blank lines, "
         "trailer lines made only of word characters right after the last step, with and without a final newline) and in ENHSP "
-        "one-action-per-line layout; logs without a plan (no-solution markers, timeouts); the shipped log itself; a case = one "
+        "one-action-per-line layout; logs without a plan (no-solution markers, timeouts); 40% of the logs overwrite one fixed path per "
+        "layout and are read again in the same process (stale solution files left in place); the shipped log itself; a case = one "
         "log; distinct by log text; non-trivial when the plan has >= 11 steps or a word-only trailer line follows the plan")
 DECISIVE = ["compared:steps", "compared:status"]
-DECISIVE_EACH = ["compared:steps", "compared:status", "compared:enhsp", "compared:plan-file"]
+DECISIVE_EACH = ["compared:steps", "compared:status", "compared:enhsp", "compared:plan-file", "logs_on_a_reused_path"]
 ASSUMPTIONS = ["header and trailer text never contains '<digit>: ' (such a line would be indistinguishable from a step for any parser)"]
 SHARDS = {"quick": 8, "thorough": 16}
 
@@ -100,7 +101,7 @@ def run(ctx):
     from pddl_plus_parser.exporters import MetricFFParser, ENHSPParser
     rng = ctx.rng("c19")
     thorough = ctx.tier == "thorough"
-    n = 1300 if thorough else 65
+    n = 6000 if thorough else 300
     for i in range(n):
         if not ctx.next_case():
             continue
@@ -110,12 +111,18 @@ def run(ctx):
         steps = gen_plan(rng, nsteps)
         want = [[t.lower() for t in s] for s in steps]
         feats = {f"digits:{len(str(max(nsteps - 1, 0)))}"}
+        # a planner writes every run to the same output file: the log's path says nothing about its content.  Part of the
+        # logs (with and without plans, both layouts) therefore overwrite one fixed path per layout and are read again.
+        reuse = rng.random() < 0.4
+        if reuse:
+            feats.add("log-path-reused")
+            ctx.count("logs_on_a_reused_path")
         if kind == "ff":
             log = ff_log(rng, steps, feats)
             if rng.random() < 0.12:
                 log = log.replace("\n", "\r\n")
                 feats.add("crlf")
-            p = Path(env.write_tmp(log, suffix=".out"))
+            p = Path(env.write_tmp(log, suffix=".out", name="planner-output.out" if reuse else None))
             wit = {"log": log[:6000], "steps": nsteps, "features": sorted(feats)}
             try:
                 status, acts = MetricFFParser().get_solving_status(p)
@@ -137,8 +144,12 @@ def run(ctx):
                                                                                  expected_len=len(want), observed_len=len(got)))
                 continue
             # the written plan file
-            outp = Path(env.write_tmp("", suffix=".solution"))
-            os.unlink(outp)
+            outp = Path(env.write_tmp("", suffix=".solution", name="planner-output.solution" if reuse else None))
+            if not reuse or nsteps == 0 or rng.random() < 0.5:
+                # (an empty plan writes no file by design - "exports a plan if exists" - so nothing stale is left for it)
+                os.unlink(outp)
+            else:
+                open(outp, "w").write("(stale-step left over)\n" * rng.randint(1, 200))
             try:
                 MetricFFParser().parse_plan(p, outp)
                 got2 = norm_steps(open(outp).read().splitlines()) if os.path.exists(outp) else []
@@ -153,7 +164,7 @@ def run(ctx):
             hdr = [b for b in HEADER_BLOCKS if rng.random() < 0.7]
             marker = rng.choice(NO_SOLUTION + [None, None])
             log = "".join(hdr) + ("\n" + marker + "\n" if marker else "\nadvancing to goal distance:   7\n")
-            p = Path(env.write_tmp(log, suffix=".out"))
+            p = Path(env.write_tmp(log, suffix=".out", name="planner-output.out" if reuse else None))
             try:
                 status, acts = MetricFFParser().get_solving_status(p)
             except BaseException as e:
@@ -162,12 +173,12 @@ def run(ctx):
             ctx.feat({"noplan:" + ("no-solution" if marker else "timeout")})
             if status != ("no-solution" if marker else "timeout") or acts:
                 ctx.violation("ff:log-without-plan-misclassified", {"log": log[:3000], "expected": "no-solution" if marker else "timeout",
-                                                                    "observed": [status, acts]})
+                                                                    "observed": [status, acts], "features": sorted(feats)})
         else:
             mode = rng.choice(["upper", "mixed", "lower"])
             lines = ["(" + " ".join(t.upper() if mode == "upper" else (t if mode == "mixed" else t.lower()) for t in s) + ")" for s in steps]
             text = "\n".join(lines) + ("\n" if lines and rng.random() < 0.8 else "")
-            p = Path(env.write_tmp(text, suffix=".plan"))
+            p = Path(env.write_tmp(text, suffix=".plan", name="planner-output.plan" if reuse else None))
             try:
                 got = norm_steps(ENHSPParser.parse_plan_content(p))
             except BaseException as e:
@@ -176,7 +187,7 @@ def run(ctx):
             ctx.count("compared:steps")
             ctx.feat({"enhsp", f"digits:{len(str(max(nsteps - 1, 0)))}"})
             if got != want:
-                ctx.violation("enhsp:steps-differ", {"plan_text": text[:3000], "expected_len": len(want), "observed": str(got)[-600:]})
+                ctx.violation("enhsp:steps-differ", {"features": sorted(feats), "plan_text": text[:3000], "expected_len": len(want), "observed": str(got)[-600:]})
     # the shipped log against its shipped solution
     if ctx.shard == 0:
         rp = os.path.join(env.repo_path(), "tests", "exporters_tests")
